@@ -13,7 +13,8 @@ import ast
 from ..core import rule, AnalysisError
 from ..engine.facts import dotted, const, src, walk_func
 from ..engine import pattern as P
-from .common import calls, pn, access_paths, assigned_from, canon
+from .common import calls, pn, access_paths, assigned_from, canon, branch_paths
+from .common import _fold_not as _fold
 from . import c18  # precedence (coding comment > input_encoding > utf-8) is registered for C20 there
 from . import c05  # attribute-pieces (attribute expressions are re-emitted unstripped, so their lines stay put) is registered for C20 there
 
@@ -67,15 +68,63 @@ def _names(fn):
     return m
 
 
-def _branches(fn):
-    """(class name(s), body) of the isinstance chain in extract_nodes"""
-    out = []
+class _Branch:
+    """what extract_nodes does for nodes of one class: the statements of the scan-loop path(s) on which
+    `isinstance(node, <class>)` is the test that holds (however the dispatch is spelled)"""
+
+    def __init__(self, names, test, body, paths):
+        self.names, self.test, self.body, self.paths = names, test, body, paths
+        for a in ("lineno", "col_offset", "_mod", "_func", "_parent"):
+            if hasattr(test, a):
+                setattr(self, a, getattr(test, a))
+
+
+def _scan_loop(fn):
     nodev = {v: k for k, v in _names(fn).items()}.get("node", "node")
-    for n in ast.walk(fn):
-        if isinstance(n, ast.If) and isinstance(n.test, ast.Call) and dotted(n.test.func) == "isinstance" and src(n.test.args[0]) == nodev:
-            t = n.test.args[1]
-            names = [dotted(x).split(".")[-1] for x in (t.elts if isinstance(t, ast.Tuple) else [t])]
-            out.append((names, n))
+    loops = [n for n in walk_func(fn) if isinstance(n, ast.For) and isinstance(n.target, ast.Name) and n.target.id == nodev]
+    return nodev, (loops[0] if loops else None)
+
+
+def _branches(fn):
+    """(class name(s), _Branch) for every isinstance test on the scanned node"""
+    out = []
+    nodev, lp = _scan_loop(fn)
+    if lp is None:
+        return out
+    paths = branch_paths(lp.body)
+    tests = {}
+    for p in paths:
+        for t, v in p.conds:
+            tt, vv = _fold(t, v)
+            if isinstance(tt, ast.Call) and dotted(tt.func) == "isinstance" and src(tt.args[0]) == nodev and len(tt.args) == 2:
+                tests.setdefault(src(tt), tt)
+    for key, tt in tests.items():
+        t = tt.args[1]
+        names = [dotted(x).split(".")[-1] for x in (t.elts if isinstance(t, ast.Tuple) else [t])]
+        mine = [p for p in paths if p.holds(key, True)]
+        body = []
+        seen = set()
+        for p in mine:
+            # statements executed once the class test has held
+            idx = [i for i, (c, v) in enumerate(p.conds) if src(_fold(c, v)[0]) == key][0]
+            for st in p.stmts:
+                if id(st) not in seen and st.lineno >= getattr(p.conds[idx][0], "lineno", 0):
+                    seen.add(id(st))
+                    body.append(st)
+        out.append((names, _Branch(names, tt, body, mine)))
+    return out
+
+
+def _unknown_kind_paths(fn):
+    """paths of the scan loop on which every class test failed"""
+    nodev, lp = _scan_loop(fn)
+    if lp is None:
+        return []
+    out = []
+    for p in branch_paths(lp.body):
+        cls_tests = [(c, v) for c, v in p.conds if isinstance(_fold(c, v)[0], ast.Call) and dotted(_fold(c, v)[0].func) == "isinstance" and src(_fold(c, v)[0].args[0]) == nodev]
+        if cls_tests and all(not _fold(c, v)[1] for c, v in cls_tests):
+            out.append(p)
     return out
 
 
@@ -116,19 +165,13 @@ def dispatch_exhaustive(ctx):
         ctx.check(cls not in by, "silent:" + cls, db.where(fn), "extract_nodes has a code path for %s: plain text would be scanned for gettext calls" % cls, "no code path (falls to `continue`)")
     cm = by.get("Comment")
     ctx.check(cm is not None and codev not in {t.id for s in cm.body for x in ast.walk(s) if isinstance(x, ast.Assign) for t in x.targets if isinstance(t, ast.Name)}, "silent:Comment", db.where(cm) if cm is not None else db.where(fn), "## comments are scanned as code", "comments only feed translator comments")
-    # the chain ends in `else: continue`
-    last = br[-1][1] if br else None
-    chain_end = None
-    for names, n in br:
-        cur = n
-        while len(cur.orelse) == 1 and isinstance(cur.orelse[0], ast.If):
-            cur = cur.orelse[0]
-        if cur.orelse and any(isinstance(x, ast.Continue) for x in cur.orelse) and not any(isinstance(x, ast.Assign) and src(x.targets[0]) == codev for x in cur.orelse):
-            chain_end = cur
-    ctx.check(chain_end is not None, "else-continue", db.where(fn), "unknown node kinds are not skipped", "anything else is skipped")
+    # nodes of every other kind are skipped: no code is scanned on a path where all class tests failed
+    unk = _unknown_kind_paths(fn)
+    ok_unk = bool(unk) and all(isinstance(p.exit, ast.Continue) and not any(isinstance(x, ast.Assign) and src(x.targets[0]) == codev for x in p.stmts) for p in unk)
+    ctx.check(ok_unk, "else-continue", db.where(fn), "unknown node kinds are not skipped", "anything else is skipped")
     # ControlLine end lines carry no code
     cl = by.get("ControlLine")
-    ctx.check(cl is not None and "node.isend" in canon(src(cl), nm_), "control-end-skipped", db.where(cl) if cl is not None else db.where(fn), "`% end...` lines are scanned", "end lines skipped")
+    ctx.check(cl is not None and any(isinstance(p.exit, ast.Continue) and p.holds(canon("node.isend", {v_: k_ for k_, v_ in nm_.items()}), True) for p in cl.paths), "control-end-skipped", db.where(cl) if cl is not None else db.where(fn), "`% end...` lines are scanned", "end lines skipped")
 
 
 @rule("C20.descent", min_instances=5)
